@@ -56,13 +56,19 @@ WrittenOnCreate(w, f) == InsertedCol(w, f) /\ (w.op \in {"create_map", "create_m
 \* (a zero value of a field with a literal default is inserted as that default and therefore also
 \* overwrites the existing row's value)
 \* a field whose default is a database expression is never part of UpdateAll
-WrittenOnUpsert(w, f) == InsertedCol(w, f) /\ Updatable(f) /\ ~f.key /\ ~f.dbd
+\* the update part honours the selection: a tracked time outside a restricting Select is inserted into a
+\* new row but not refreshed on conflict (the property leaves that case open: UpsertOpen)
+WrittenOnUpsert(w, f) == InsertedCol(w, f) /\ Updatable(f) /\ ~f.key /\ ~f.dbd /\ (Sel(w, f) \/ ~Restricted(w))
+UpsertOpen(w, f) == f.auto /\ InsertedCol(w, f) /\ Updatable(f) /\ ~f.key /\ ~f.dbd /\ Restricted(w) /\ ~Sel(w, f)
 
 Written(m, w) ==
   {m[i].name : i \in {j \in DOMAIN m :
       CASE w.op \in {"create", "create_map", "create_maps", "create_slice"} -> WrittenOnCreate(w, m[j])
         [] w.op = "upsert" -> WrittenOnUpsert(w, m[j])
         [] OTHER -> WrittenOnUpdate(w, m[j])}}
+
+\* fields whose writing the property does not decide
+Open(m, w) == {m[i].name : i \in {j \in DOMAIN m : w.op = "upsert" /\ UpsertOpen(w, m[j])}}
 
 \* ---- design-level statements, checked by TLC over all 2-field models -----------------------
 CONSTANTS Perms
